@@ -95,7 +95,7 @@ fn conc_case(run_seed: u64, tier: Tier, profile: ConcProfile) -> Case {
         if arng.chance(3, 4) {
             // ... and exactly when the background thread lets go of the database mutex (the end of a
             // background task is such a point) or sits at another drawn point
-            let mask = *arng.pick(&[1i64 << 8, 1 << 8, 0b110, 1 << 3, 0x1ff]);
+            let mask = *arng.pick(&[1i64 << 8, 1 << 8, 0b110, 1 << 3, 0x1ff]) | if arng.chance(1, 2) { crate::sched::ALIGN_HOLD as i64 } else { 0 };
             params.insert("close_align_mask".to_string(), mask);
             params.insert("close_align_nth".to_string(), *arng.pick(&[1i64, 1, 2, 3, 5]));
         }
@@ -146,6 +146,15 @@ fn hist_case(run_seed: u64, tier: Tier, profile: Profile) -> Case {
         // WAL records around the first 32 KiB block boundary, kept in the log (1 MiB memtable) across
         // the plan's clean reopens (reuse_log_files appends to such a log, or replays it)
         crate::gen::boundary_prefix(&mut rng.fork("boundary-shape"), &mut plan);
+    }
+    let mut grng = rng.fork("giant-batch");
+    // (off by default: with 65 000 entries the memtable's skip list makes one flush take minutes -
+    // the runs of a quick C02 batch that contained such a plan did not finish within 15 minutes)
+    if std::env::var_os("RAINSIM_GIANT_BATCH").is_some() && grng.chance(1, 120) {
+        // a batch whose operation count does not fit 16 bits, usually followed by a reopen (the
+        // write-ahead log record is then decoded again) and a full comparison
+        let reopen = grng.chance(2, 3);
+        crate::gen::giant_batch(&mut grng, &mut plan, reopen);
     }
     let mut arng = rng.fork("align");
     if arng.chance(1, 5) {
@@ -493,6 +502,36 @@ fn corrupt_case(run_seed: u64, tier: Tier) -> Case {
             }
         }
     }
+    let mut brng = rng.fork("big-block");
+    if brng.chance(1, 8) || std::env::var_os("RAINSIM_FORCE_BIGBLOCK").is_some() {
+        // one image in eight holds one value that is a table block of its own far above the usual
+        // sizes: 70-140 KiB of one repeated letter (stored Snappy-compressed as several 64 KiB
+        // frames), or 200 KiB / 1.1 MiB of incompressible letters (stored raw). Size-dependent paths
+        // of the block reader (frame decoding, large-buffer handling) are otherwise never entered.
+        let max_tag = plan
+            .ops
+            .iter()
+            .flat_map(|o| match o {
+                Op::Put { v, .. } => vec![v.tag],
+                Op::Batch { items } => items.iter().filter_map(|(_, v)| v.as_ref().map(|v| v.tag)).collect(),
+                _ => vec![],
+            })
+            .max()
+            .unwrap_or(0);
+        let compressible = brng.chance(1, 2);
+        // Val::bytes pads every third tag with one repeated letter
+        let mut tag = max_tag + 1;
+        while (tag % 3 == 0) != compressible {
+            tag += 1;
+        }
+        let len = if compressible { *brng.pick(&[70_000u32, 140_000, 1_100_000]) } else { *brng.pick(&[200_000u32, 1_150_000]) };
+        let at = brng.usize_below(plan.ops.len() + 1);
+        let k = brng.usize_below(plan.keys.len().max(1));
+        plan.ops.insert(at, Op::Put { k, v: crate::plan::Val { tag, len } });
+        if brng.chance(3, 4) {
+            plan.ops.insert(at + 1, Op::Flush);
+        }
+    }
     if rng.fork("boundary").chance(1, 6) || std::env::var_os("RAINSIM_FORCE_BOUNDARY").is_some() {
         // one image in six holds a WAL whose first record ends at / crosses the first 32 KiB block
         // boundary (fragmented records, trailer padding) - everything else in these images is tiny
@@ -583,6 +622,10 @@ fn crash_case(run_seed: u64, tier: Tier, torn: bool) -> Case {
     let mut plan = plan;
     if rng.fork("boundary").chance(1, 8) {
         crate::gen::boundary_prefix(&mut rng.fork("boundary-shape"), &mut plan);
+    }
+    let mut grng = rng.fork("giant-batch");
+    if std::env::var_os("RAINSIM_GIANT_BATCH").is_some() && grng.chance(1, 60) {
+        crate::gen::giant_batch(&mut grng, &mut plan, false);
     }
     let mut crng = rng.fork("clients");
     if !torn && crng.chance(1, 4) {
